@@ -6,6 +6,9 @@ import XrlParser.Lemmas.Witness
 import XrlParser.Lemmas.Sorted
 import XrlParser.Lemmas.Tables
 import XrlParser.Lemmas.Heap
+import XrlParser.Lemmas.Strict
+import XrlParser.Lemmas.Range
+import XrlParser.Lemmas.Reader
 /-!
 # C07 — the formula parser computes the true composition of every well-formed formula
 
@@ -18,11 +21,15 @@ proved by structural induction, nothing is bounded.
   `inAlphabet` (XrlParser/Spec/Formula.lean, written from the property text)
 * `elementsOf T` is the specification's element table read off the model's tables (symbol ↦ Z by the lookup the
   parser uses, weight = `AtomicWeight`, absent when that call fails).
-* `v : Variant` says which of the proposed repairs C07-1 (locale), C07-2 (atomic weights), C07-3 (leaks) the
-  working tree contains; `asIs` is the shipped code.  Statements that hold for every `v` quantify over it; the
-  three clauses the shipped code violates are stated as `…_full v`, refuted for the unrepaired switch
-  (`…_full_fails`, on a witness replayed on the library), proved with the hypothesis that excludes exactly the
-  witness set (`…_partial`), and proved in full for the repaired switch (`…_fixed`).
+* `v : Variant` says which of the proposed repairs C07-1 (locale), C07-2 (atomic weights), C07-3 (leaks), C07-4
+  (strict scanner), C07-5 (range of `double`) the working tree contains; `asIs` is the shipped code.  Statements
+  that hold for every `v` quantify over it; the clauses the shipped code violates are stated as `…_full v`, refuted
+  for the unrepaired switch (`…_full_fails`, on a witness replayed on the library), proved with the hypothesis that
+  excludes exactly the witness set (`…_partial`, where there is one), and proved in full for the repaired switch
+  (`…_fixed`).
+* `f.Fits` (Spec): every subscript of `f` is a number a `double` can hold as a finite positive value.  The counts of
+  the result are doubles, so the accepting clauses are stated for such formulas; `ovf = false` in their conclusion
+  says that the exact numbers of the model are the numbers of the C code (no conversion returned `+inf`).
 -/
 namespace XrlParser.C07
 open Hand Spec
@@ -36,19 +43,25 @@ def parse (v : Variant) (T : Tables) (l : Locale) (s : String) : ParseOut := com
     expansion, `nAtomsAll` = Σ counts, `molarMass` = Σ AtomicWeight·count — for every well-formed formula, whether
     or not its elements have weights. -/
 theorem parse_print_counts (v : Variant) (T : Tables) (l : Locale) (f : Formula) (hf : f.WF (elementsOf T))
-    (hw : v.weightFix = false ∨ f.Weighted (elementsOf T)) :
-    ∃ cd, (parse v T l f.print).result = .ok cd ∧
+    (hfit : f.Fits) (hw : v.weightFix = false ∨ f.Weighted (elementsOf T)) :
+    ∃ cd, (parse v T l f.print).result = .ok cd ∧ (parse v T l f.print).ovf = false ∧
       StrictAsc cd.elements ∧ cd.nAtoms.length = cd.elements.length ∧
       (∀ z, z ∈ cd.elements ↔ 0 < f.eval (elementsOf T) z) ∧
       (∀ z, countIn cd.elements cd.nAtoms z = f.eval (elementsOf T) z) ∧
       cd.nAtomsAll = sumL cd.nAtoms ∧
       cd.molarMass = sumL (cd.elements.map (fun z => atomicWeight T z * f.eval (elementsOf T) z)) := by
-  obtain ⟨ca, k, h1, h2⟩ := parseSimple_ok T (f.printL.length + 1) f hf (by omega)
+  obtain ⟨ca, k, h1, h2⟩ := parseSimple_ok (v := v) T (f.printL.length + 1) f (wfv_of_fits hf hfit) (by omega)
   have hw' : v.weightFix = false ∨ ∀ e ∈ ca, atomicWeight T e.1 ≠ 0 := by
     rcases hw with hw | hw
     · exact Or.inl hw
     · exact Or.inr (fun e he => ne_of_gt (weight_pos_of_weighted T hw h2 he))
-  refine ⟨mkCD T ca, by rw [parse, print_toList]; exact compoundParser_result_ok v T l _ h1 hw', ?_⟩
+  have hres : (parse v T l f.print).result = .ok (mkCD T ca) := by
+    rw [parse, print_toList]; exact compoundParser_result_ok v T l _ h1 hw'
+  have hovf : (parse v T l f.print).ovf = false := by
+    rw [parse, print_toList] at hres ⊢
+    rw [compoundParser_ovf_ok v T l _ hres]
+    exact simpleOvf_print_fits T hf hfit
+  refine ⟨mkCD T ca, hres, hovf, ?_⟩
   refine ⟨pairwise_strictAsc h2.sorted, by simp [mkCD], ?_, ?_, ?_, ?_⟩
   · intro z
     constructor
@@ -75,15 +88,16 @@ theorem parse_print_counts (v : Variant) (T : Tables) (l : Locale) (f : Formula)
     intro e he
     simp only [Function.comp, entry_eq h2 he]
 
-/-- **parse_print**: for every well-formed formula all of whose elements have an atomic weight, the parser
-    returns the composition the property describes: strictly ascending elements, counts = expansion, totals,
-    mass fractions = weight·count/molar mass, all positive, summing to 1 (exact rationals). -/
+/-- **parse_print**: for every well-formed formula whose subscripts a double can hold and all of whose elements have
+    an atomic weight, the parser returns the composition the property describes: strictly ascending elements,
+    counts = expansion, totals, mass fractions = weight·count/molar mass, all positive, summing to 1 (exact
+    rationals; no conversion overflowed). -/
 theorem parse_print (v : Variant) (T : Tables) (l : Locale) (f : Formula) (hf : f.WF (elementsOf T))
-    (hw : f.Weighted (elementsOf T)) :
-    ∃ cd, (parse v T l f.print).result = .ok cd ∧
+    (hfit : f.Fits) (hw : f.Weighted (elementsOf T)) :
+    ∃ cd, (parse v T l f.print).result = .ok cd ∧ (parse v T l f.print).ovf = false ∧
       (∀ x ∈ cd.massFractions, x.isSome = true) ∧
       IsCompositionOf (atomicWeight T) (f.eval (elementsOf T)) (toComposition cd) := by
-  obtain ⟨ca, k, h1, h2⟩ := parseSimple_ok T (f.printL.length + 1) f hf (by omega)
+  obtain ⟨ca, k, h1, h2⟩ := parseSimple_ok (v := v) T (f.printL.length + 1) f (wfv_of_fits hf hfit) (by omega)
   have hne : ca ≠ [] := by
     obtain ⟨z, hz⟩ := exists_eval_pos (elementsOf T) hf.1 hf.2.1 hf.2.2
     intro hca
@@ -95,17 +109,21 @@ theorem parse_print (v : Variant) (T : Tables) (l : Locale) (f : Formula) (hf : 
   have hres : (parse v T l f.print).result = .ok (mkCD T ca) := by
     rw [parse, print_toList]
     exact compoundParser_result_ok v T l _ h1 (Or.inr (fun e he => ne_of_gt (hwpos e he)))
-  exact ⟨mkCD T ca, hres, this.1, this.2⟩
+  have hovf : (parse v T l f.print).ovf = false := by
+    rw [parse, print_toList] at hres ⊢
+    rw [compoundParser_ovf_ok v T l _ hres]
+    exact simpleOvf_print_fits T hf hfit
+  exact ⟨mkCD T ca, hres, hovf, this.1, this.2⟩
 
 /-- for **every** string the parser accepts (formula-shaped or not), the elements are strictly ascending
     without duplicates — the invariant that also justifies modelling `bsearch` on the atom array by its contract. -/
 theorem parse_elements_ascending (v : Variant) (T : Tables) (l : Locale) (s : List Char) (cd : CompoundData)
     (h : (compoundParser v T l (some s)).result = .ok cd) : StrictAsc cd.elements := by
-  cases hp : parseSimple T (s.length + 1) s with
+  cases hp : parseSimple v T (s.length + 1) s with
   | error f => rw [compoundParser_result_err v T l s hp] at h; cases h
   | ok r =>
     obtain ⟨ca, k⟩ := r
-    have hs := parseSimple_sorted T _ _ _ hp
+    have hs := parseSimple_sorted (v := v) T _ _ _ hp
     simp only [compoundParser, hp] at h
     split at h
     · cases h
@@ -115,19 +133,20 @@ theorem parse_elements_ascending (v : Variant) (T : Tables) (l : Locale) (s : Li
 
 /-- **parse_reorder**: reordering the terms of a formula (at any nesting level) does not change the result. -/
 theorem parse_reorder (v : Variant) (T : Tables) (l : Locale) {f g : Formula} (h : Reorder f g)
-    (hf : f.WF (elementsOf T)) (hg : g.WF (elementsOf T)) :
+    (hf : f.WF (elementsOf T)) (hg : g.WF (elementsOf T)) (hff : f.Fits) (hgf : g.Fits) :
     (parse v T l f.print).result = (parse v T l g.print).result :=
-  parse_eval_invariant v T l hf hg (eval_reorder _ h)
+  parse_eval_invariant v T l (wfv_of_fits hf hff) (wfv_of_fits hg hgf) (eval_reorder _ h)
 
 /-- **parse_expand_group**: replacing a parenthesised group `(inner)sub` by the terms of `inner` with their
     subscripts multiplied by `sub` does not change the result. -/
 theorem parse_expand_group (v : Variant) (T : Tables) (l : Locale) (pre inner inner' rest : Formula) (sub : Sub)
     (hs : Scaled sub.value inner inner')
     (hf : (pre.append (.group inner sub rest)).WF (elementsOf T))
-    (hg : (pre.append (inner'.append rest)).WF (elementsOf T)) :
+    (hg : (pre.append (inner'.append rest)).WF (elementsOf T))
+    (hff : (pre.append (.group inner sub rest)).Fits) (hgf : (pre.append (inner'.append rest)).Fits) :
     (parse v T l (pre.append (.group inner sub rest)).print).result =
       (parse v T l (pre.append (inner'.append rest)).print).result := by
-  apply parse_eval_invariant v T l hf hg
+  apply parse_eval_invariant v T l (wfv_of_fits hf hff) (wfv_of_fits hg hgf)
   intro z
   rw [eval_append, eval_append, eval_append, eval_scaled _ hs z]
   simp only [Formula.eval]
@@ -138,20 +157,29 @@ theorem parse_expand_group (v : Variant) (T : Tables) (l : Locale) (pre inner in
     NULL and one error. -/
 theorem parse_rejects_outside_alphabet (v : Variant) (T : Tables) (l : Locale) (s : List Char)
     (h : ∃ c ∈ s, inAlphabet c = false) : ∃ e, (compoundParser v T l (some s)).result = .error e := by
-  obtain ⟨e, he⟩ := parseSimple_alphabet T (s.length + 1) s (by omega) h
+  obtain ⟨e, he⟩ := parseSimple_alphabet (v := v) T (s.length + 1) s (by omega) h
   exact ⟨e.err, compoundParser_result_err v T l s he⟩
 
 /-- every string with unbalanced parentheses is rejected. -/
 theorem parse_rejects_unbalanced (v : Variant) (T : Tables) (l : Locale) (s : List Char) (h : ¬ Balanced s) :
     ∃ e, (compoundParser v T l (some s)).result = .error e := by
-  obtain ⟨e, he⟩ := parseLevel_unbalanced T (parseSimple T s.length) s h
+  obtain ⟨e, he⟩ := parseLevel_unbalanced (v := v) T (parseSimple v T s.length) s h
   exact ⟨e.err, compoundParser_result_err v T l s he⟩
 
 /-- every formula-shaped text that is empty or contains an unknown symbol, a zero subscript, a malformed
     subscript (`Sub.junk`: no digit or more than one point) or empty parentheses — at any depth — is rejected. -/
 theorem parse_rejects_invalid (v : Variant) (T : Tables) (l : Locale) (f : Formula) (hs : f.Shape)
     (h : f = .nil ∨ ¬ f.Known (elementsOf T)) : ∃ e, (parse v T l f.print).result = .error e := by
-  obtain ⟨e, he⟩ := parseSimple_invalid T (f.printL.length + 1) f hs h (by omega)
+  have h' : f = .nil ∨ ¬ KnownV v (elementsOf T) f := h.imp id (fun hn hk => hn hk.known)
+  obtain ⟨e, he⟩ := parseSimple_invalid (v := v) T (f.printL.length + 1) f hs h' (by omega)
+  exact ⟨e.err, by rw [parse, print_toList]; exact compoundParser_result_err v T l _ he⟩
+
+/-- every formula-shaped text with a positive subscript that `strtod` rounds to `0.0` (at most 2^-1075) is rejected —
+    by every variant (the zero test fires) — and, with the repair C07-5, so is every one with a subscript that it
+    rounds to `+inf`: `KnownV v` is `Known` with both conditions added to "positive". -/
+theorem parse_rejects_unconvertible (v : Variant) (T : Tables) (l : Locale) (f : Formula) (hs : f.Shape)
+    (h : ¬ KnownV v (elementsOf T) f) : ∃ e, (parse v T l f.print).result = .error e := by
+  obtain ⟨e, he⟩ := parseSimple_invalid (v := v) T (f.printL.length + 1) f hs (Or.inr h) (by omega)
   exact ⟨e.err, by rw [parse, print_toList]; exact compoundParser_result_err v T l _ he⟩
 
 /-- the rejection clause of the property at full strength: a formula-shaped text that is not a well-formed
@@ -164,8 +192,8 @@ def parse_rejects_full (v : Variant) : Prop :=
     atomic weight (`AtomicWeight(Z, NULL)` returns 0 and the error is discarded, xraylib-parser.c:354,359).  The
     set of inputs on which `parse_rejects_full` fails is exactly {well-formed, not all weighted}. -/
 theorem parse_accepts_weightless (v : Variant) (hv : v.weightFix = false) (T : Tables) (l : Locale) (f : Formula)
-    (hf : f.WF (elementsOf T)) : ∃ cd, (parse v T l f.print).result = .ok cd := by
-  obtain ⟨cd, h, _⟩ := parse_print_counts v T l f hf (Or.inl hv)
+    (hf : f.WF (elementsOf T)) (hfit : f.Fits) : ∃ cd, (parse v T l f.print).result = .ok cd := by
+  obtain ⟨cd, h, _⟩ := parse_print_counts v T l f hf hfit (Or.inl hv)
   exact ⟨cd, h⟩
 
 /-- the property's rejection clause is **false** for the shipped code: `Rf` is accepted
@@ -173,24 +201,23 @@ theorem parse_accepts_weightless (v : Variant) (hv : v.weightFix = false) (T : T
 theorem parse_rejects_full_fails (v : Variant) (hv : v.weightFix = false) : ¬ parse_rejects_full v := by
   intro h
   obtain ⟨e, he⟩ := h T0 ⟨['C']⟩ fRf fRf_wf.2.1 (fun hh => fRf_not_weighted hh.2)
-  obtain ⟨cd, hcd⟩ := parse_accepts_weightless v hv T0 ⟨['C']⟩ fRf fRf_wf
+  obtain ⟨cd, hcd⟩ := parse_accepts_weightless v hv T0 ⟨['C']⟩ fRf fRf_wf fRf_fits
   rw [hcd] at he
   cases he
 
 /-- with the repair C07-2 the rejection clause holds in full. -/
 theorem parse_rejects_full_fixed (v : Variant) (hv : v.weightFix = true) : parse_rejects_full v := by
   intro T l f hs hbad
-  by_cases hwf : f.WF (elementsOf T)
-  · have hnw : ¬ f.Weighted (elementsOf T) := fun hw => hbad ⟨hwf, hw⟩
-    obtain ⟨ca, k, h1, h2⟩ := parseSimple_ok T (f.printL.length + 1) f hwf (by omega)
+  by_cases hwf : WFV v (elementsOf T) f
+  · have hnw : ¬ f.Weighted (elementsOf T) := fun hw => hbad ⟨hwf.wf, hw⟩
+    obtain ⟨ca, k, h1, h2⟩ := parseSimple_ok (v := v) T (f.printL.length + 1) f hwf (by omega)
     have hres : (parse v T l f.print).result = .error .zRange := by
       rw [parse, print_toList]
-      exact compoundParser_result_weightless v T l _ h1 hv (exists_weightless_entry T hwf hnw h2)
+      exact compoundParser_result_weightless v T l _ h1 hv (exists_weightless_entry T hwf.wf hnw h2)
     exact ⟨.zRange, hres⟩
-  · apply parse_rejects_invalid v T l f hs
-    by_cases hn : f = .nil
-    · exact Or.inl hn
-    · exact Or.inr (fun hk => hwf ⟨hn, hs, hk⟩)
+  · by_cases hn : f = .nil
+    · exact parse_rejects_invalid v T l f hs (Or.inl hn)
+    · exact parse_rejects_unconvertible v T l f hs (fun hk => hwf ⟨hn, hs, hk⟩)
 
 /-- what is returned for the witness: molar mass 0 and a non-finite (0/0) mass fraction. -/
 theorem parse_weightless_nan : (compoundParser asIs T0 ⟨['C']⟩ (some ['R', 'f'])).result =
@@ -246,10 +273,10 @@ def heap_balanced_full (v : Variant) : Prop :=
 /-- the exact count for the shipped code on every well-formed formula: one block per nesting level (the formula,
     the inside of every group) that contains no element symbol directly. -/
 theorem heap_leak_count (v : Variant) (hv : v.leakFix = false) (T : Tables) (l : Locale) (f : Formula)
-    (hf : f.WF (elementsOf T)) : liveAfterFree (parse v T l f.print) = leakOf f := by
-  obtain ⟨ca, h1, _⟩ := parseSimple_leak T (f.printL.length + 1) f hf (by omega)
+    (hf : f.WF (elementsOf T)) (hfit : f.Fits) : liveAfterFree (parse v T l f.print) = leakOf f := by
+  obtain ⟨ca, h1, _⟩ := parseSimple_leak (v := v) T (f.printL.length + 1) f (wfv_of_fits hf hfit) (by omega)
   rw [parse, print_toList]
-  exact compoundParser_live_ok v hv T l _ h1
+  exact compoundParser_live_ok hv T l _ h1
 
 /-- false for the shipped code (and for every variant without the repair C07-3): the accepted formula `(H)`
     leaves `tempBracketAtoms` of xraylib-parser.c:283-289 allocated (replayed on the library with the allocation
@@ -257,7 +284,8 @@ theorem heap_leak_count (v : Variant) (hv : v.leakFix = false) (T : Tables) (l :
 theorem heap_balanced_full_fails (v : Variant) (hv : v.leakFix = false) : ¬ heap_balanced_full v := by
   intro h
   have h1 := h T0 ⟨['C']⟩ (some fParenH.print.toList)
-  have h2 : liveAfterFree (parse v T0 ⟨['C']⟩ fParenH.print) = leakOf fParenH := heap_leak_count v hv T0 _ fParenH fParenH_wf
+  have h2 : liveAfterFree (parse v T0 ⟨['C']⟩ fParenH.print) = leakOf fParenH :=
+    heap_leak_count v hv T0 _ fParenH fParenH_wf fParenH_fits
   rw [parse, h1] at h2
   revert h2
   decide
@@ -275,10 +303,10 @@ theorem heap_leak_leading_group :
 /-- the heap is left as found by every well-formed formula each of whose levels contains an element symbol
     directly (the hypothesis excludes exactly the accepted formulas that leak). -/
 theorem heap_balanced_partial (v : Variant) (T : Tables) (l : Locale) (f : Formula) (hf : f.WF (elementsOf T))
-    (h : leakOf f = 0) : liveAfterFree (parse v T l f.print) = 0 := by
+    (hfit : f.Fits) (h : leakOf f = 0) : liveAfterFree (parse v T l f.print) = 0 := by
   by_cases hv : v.leakFix = true
   · rw [parse]; exact compoundParser_live_fixed v hv T l _
-  · rw [heap_leak_count v (by simpa using hv) T l f hf, h]
+  · rw [heap_leak_count v (by simpa using hv) T l f hf hfit, h]
 
 /-- with the repair C07-3 nothing is left behind (the repaired heap behaviour is modelled coarsely — all exits
     free everything — and is tied to the code by the correspondence run, live-block count on every input). -/
@@ -304,16 +332,108 @@ theorem add_compound_spec (A B : CD) (wA wB : Rat) (hA : StrictAsc A.elements) (
 theorem symbol_lookup_agrees (T : Tables) (h : tablesOK T = true) (s : List Char) :
     lookupSym T s = symbolToAtomicNumber T s := lookups_agree T h s
 
+/-! ## strings that are not formulas (audit clauses 13, 15) -/
+
+/-- the rejection clause for everything that is not a formula at all: a string that is not the text of any
+    formula of the grammar `item+`, `item := (symbol | '(' formula ')') subscript?` (`Formula.Shape` ∧ `printL`) is
+    rejected.  Together with `parse_rejects_outside_alphabet` and `parse_rejects_unbalanced` (which it subsumes) and
+    `parse_rejects_full` this covers every string. -/
+def parse_rejects_nonformula_full (v : Variant) : Prop :=
+  ∀ (T : Tables) (l : Locale) (s : List Char), (¬ ∃ f : Formula, f.Shape ∧ f.printL = s) →
+    ∃ e, (compoundParser v T l (some s)).result = .error e
+
+/-- **false** for the shipped scanner: `(H)a` is not the text of a formula, and is accepted (as H; the `a` is
+    skipped by xraylib-parser.c:100-102; replayed on the library). -/
+theorem parse_rejects_nonformula_full_fails (v : Variant) (hv : v.strictFix = false) : ¬ parse_rejects_nonformula_full v := by
+  intro h
+  obtain ⟨e, he⟩ := h T0 ⟨['C']⟩ sHa sHa_not_formula
+  have := sHa_accepted v hv
+  rw [he] at this
+  cases this
+
+/-- with the repair C07-4 every string that is not the text of a formula of the grammar is rejected (any bytes,
+    any length, any nesting depth). -/
+theorem parse_rejects_nonformula_fixed (v : Variant) (hv : v.strictFix = true) : parse_rejects_nonformula_full v := by
+  intro T l s hnot
+  cases hp : parseSimple v T (s.length + 1) s with
+  | error f => exact ⟨f.err, compoundParser_result_err v T l s hp⟩
+  | ok r => exact absurd (parseSimple_strict_shape hv T (s.length + 1) s r (by omega) hp) hnot
+
+/-- the recogniser the oracle runs (`Spec.read`, the recursive-descent reader of the grammar) decides exactly this
+    class: it fails on `s` iff `s` is not the text of a formula of the grammar (soundness and completeness of the
+    reader, `Lemmas/Reader.lean`). -/
+theorem oracle_recogniser_exact (s : List Char) : Spec.read s = none ↔ ¬ ∃ f : Formula, f.Shape ∧ f.printL = s :=
+  read_none_iff s
+
+/-- the clause in the terms in which the oracle decides it: with C07-4 every string the reader fails on is rejected -/
+theorem parse_rejects_unreadable_fixed (v : Variant) (hv : v.strictFix = true) (T : Tables) (l : Locale) (s : List Char)
+    (h : Spec.read s = none) : ∃ e, (compoundParser v T l (some s)).result = .error e :=
+  parse_rejects_nonformula_fixed v hv T l s ((read_none_iff s).1 h)
+
+/-! ## subscripts a double cannot hold (audit clauses 2, 5) -/
+
+/-- every number of an accepted result is finite: no subscript was converted to `+inf` -/
+def parse_finite_full (v : Variant) : Prop :=
+  ∀ (T : Tables) (l : Locale) (s : Option (List Char)), (compoundParser v T l s).ovf = false
+
+/-- **false** for the shipped code: `H1` followed by 309 zeros is accepted and the count is `strtod`'s `+inf`
+    (replayed on the library: nAtoms inf, nAtomsAll inf, molarMass inf, mass fraction NaN, no error). -/
+theorem parse_finite_full_fails (v : Variant) (hv : v.rangeFix = false) : ¬ parse_finite_full v := by
+  intro h
+  have := h T0 ⟨['C']⟩ (some sBig)
+  rw [sBig_ovf v hv] at this
+  cases this
+
+/-- with the repair C07-5 no accepted string has a subscript that `strtod` converts to `+inf`. -/
+theorem parse_finite_fixed (v : Variant) (hv : v.rangeFix = true) : parse_finite_full v := by
+  intro T l s
+  cases s with
+  | none => rfl
+  | some s =>
+    cases hr : (compoundParser v T l (some s)).result with
+    | error e => exact compoundParser_ovf_err v T l _ hr
+    | ok cd =>
+      rw [compoundParser_ovf_ok v T l s hr]
+      cases hp : parseSimple v T (s.length + 1) s with
+      | error f => rw [compoundParser_result_err v T l s hp] at hr; cases hr
+      | ok r => exact parseSimple_noOvf hv T _ _ _ hp
+
+/-- with the repair C07-5 a formula-shaped text with a subscript a double cannot hold (`strtod` gives `+inf` or
+    `0.0`) is rejected. -/
+theorem parse_rejects_out_of_range (v : Variant) (hv : v.rangeFix = true) (T : Tables) (l : Locale) (f : Formula)
+    (hs : f.Shape) (h : ¬ f.Fits) : ∃ e, (parse v T l f.print).result = .error e :=
+  parse_rejects_unconvertible v T l f hs (fun hk => h (fits_of_knownV hv hk))
+
+/-! ## the whole rejection clause -/
+
+/-- with the repairs C07-2, C07-4 and C07-5: **every** string (any bytes) that is not the text of a well-formed
+    formula whose subscripts a double can hold and whose elements all have atomic weights is rejected — and
+    (`parse_print`) every string that is such a text is accepted with the composition the property describes. -/
+theorem parse_rejects_all_fixed (v : Variant) (hw : v.weightFix = true) (hs : v.strictFix = true) (hr : v.rangeFix = true)
+    (T : Tables) (l : Locale) (s : List Char)
+    (h : ¬ ∃ f : Formula, f.WF (elementsOf T) ∧ f.Weighted (elementsOf T) ∧ f.Fits ∧ f.printL = s) :
+    ∃ e, (compoundParser v T l (some s)).result = .error e := by
+  by_cases hform : ∃ f : Formula, f.Shape ∧ f.printL = s
+  · obtain ⟨f, hshape, rfl⟩ := hform
+    have := parse_rejects_full_fixed v hw T l f hshape
+    by_cases hfit : f.Fits
+    · have hres := this (fun hh => h ⟨f, hh.1, hh.2, hfit, rfl⟩)
+      rwa [parse, print_toList] at hres
+    · have hres := parse_rejects_out_of_range v hr T l f hshape hfit
+      rwa [parse, print_toList] at hres
+  · exact parse_rejects_nonformula_fixed v hs T l s hform
+
 /-! ## non-vacuity: the hypotheses instantiated on concrete formulas (table `T0` and the formulas are in
     Lemmas/Witness.lean) -/
 
 /-- `parse_print` applies to `Mg(OH)2` over `T0` -/
-example : ∃ cd, (parse asIs T0 ⟨['C']⟩ fMgOH2.print).result = .ok cd ∧ (∀ x ∈ cd.massFractions, x.isSome = true) ∧
+example : ∃ cd, (parse asIs T0 ⟨['C']⟩ fMgOH2.print).result = .ok cd ∧ (parse asIs T0 ⟨['C']⟩ fMgOH2.print).ovf = false ∧
+    (∀ x ∈ cd.massFractions, x.isSome = true) ∧
     IsCompositionOf (atomicWeight T0) (fMgOH2.eval (elementsOf T0)) (toComposition cd) :=
-  parse_print asIs T0 _ fMgOH2 fMgOH2_wf fMgOH2_weighted
+  parse_print asIs T0 _ fMgOH2 fMgOH2_wf fMgOH2_fits fMgOH2_weighted
 
 /-- `parse_print_counts` applies to the witness `Rf` (no weight) -/
-example : ∃ cd, (parse asIs T0 ⟨['C']⟩ fRf.print).result = .ok cd := parse_accepts_weightless asIs rfl T0 _ fRf fRf_wf
+example : ∃ cd, (parse asIs T0 ⟨['C']⟩ fRf.print).result = .ok cd := parse_accepts_weightless asIs rfl T0 _ fRf fRf_wf fRf_fits
 
 /-- `parse_elements_ascending` applies to the result of `Mg(OH)2` -/
 example : ∀ cd, (compoundParser asIs T0 ⟨['C']⟩ (some fMgOH2.printL)).result = .ok cd → StrictAsc cd.elements :=
@@ -322,7 +442,7 @@ example : ∀ cd, (compoundParser asIs T0 ⟨['C']⟩ (some fMgOH2.printL)).resu
 /-- `parse_reorder` applies: `Mg(OH)2` and `(OH)2Mg` -/
 example : (parse asIs T0 ⟨['C']⟩ fMgOH2.print).result = (parse asIs T0 ⟨['C']⟩ fOH2Mg.print).result :=
   parse_reorder asIs T0 _ (Reorder.comm (.atom ['M', 'g'] .one .nil)
-    (.group (.atom ['O'] .one (.atom ['H'] .one .nil)) (.dec ⟨[2], none⟩) .nil)) fMgOH2_wf fOH2Mg_wf
+    (.group (.atom ['O'] .one (.atom ['H'] .one .nil)) (.dec ⟨[2], none⟩) .nil)) fMgOH2_wf fOH2Mg_wf fMgOH2_fits fOH2Mg_fits
 
 /-- `parse_expand_group` applies: `Mg(OH)2` and `MgO2H2.0` -/
 example : (parse asIs T0 ⟨['C']⟩ fMgOH2.print).result = (parse asIs T0 ⟨['C']⟩ fMgO2H2.print).result :=
@@ -330,7 +450,7 @@ example : (parse asIs T0 ⟨['C']⟩ fMgOH2.print).result = (parse asIs T0 ⟨['
     (.atom ['O'] (.dec ⟨[2], none⟩) (.atom ['H'] (.dec ⟨[2], some [0]⟩) .nil)) .nil (.dec ⟨[2], none⟩)
     (Scaled.atom _ (by simp [Sub.value, Dec.value, Dec.fracDigits, natOfDigits])
       (Scaled.atom _ (by simp [Sub.value, Dec.value, Dec.fracDigits, natOfDigits]; norm_num) Scaled.nil))
-    fMgOH2_wf fMgO2H2_wf
+    fMgOH2_wf fMgO2H2_wf fMgOH2_fits fMgO2H2_fits
 
 /-- `parse_rejects_outside_alphabet` applies to `"H O"`, `parse_rejects_unbalanced` to `"H(O"` -/
 example : ∃ e, (compoundParser asIs T0 ⟨['C']⟩ (some ['H', ' ', 'O'])).result = .error e :=
@@ -362,22 +482,52 @@ example : IsWeightedUnion (1/2) (1/2) (cdToComp ⟨[1, 8], [2, 1], [1/10, 9/10],
   add_compound_spec _ _ _ _ ⟨by decide, trivial⟩ trivial
 
 /-- the repaired switches are inhabited: `parse_rejects_full_fixed` rejects `Rf`, `locale_restored_fixed` keeps `C.utf8` -/
-example : ∃ e, (parse ⟨true, true, true⟩ T0 ⟨['C']⟩ fRf.print).result = .error e :=
-  parse_rejects_full_fixed ⟨true, true, true⟩ rfl T0 _ fRf fRf_wf.2.1 (fun hh => fRf_not_weighted hh.2)
-example : (compoundParser ⟨true, true, true⟩ T0 ⟨['C', '.', 'u', 't', 'f', '8']⟩ (some ['H', '2', 'O'])).locale = ⟨['C', '.', 'u', 't', 'f', '8']⟩ :=
-  locale_restored_fixed ⟨true, true, true⟩ rfl T0 _ _
+example : ∃ e, (parse ⟨true, true, true, true, true⟩ T0 ⟨['C']⟩ fRf.print).result = .error e :=
+  parse_rejects_full_fixed ⟨true, true, true, true, true⟩ rfl T0 _ fRf fRf_wf.2.1 (fun hh => fRf_not_weighted hh.2)
+example : (compoundParser ⟨true, true, true, true, true⟩ T0 ⟨['C', '.', 'u', 't', 'f', '8']⟩ (some ['H', '2', 'O'])).locale = ⟨['C', '.', 'u', 't', 'f', '8']⟩ :=
+  locale_restored_fixed ⟨true, true, true, true, true⟩ rfl T0 _ _
 
 /-- `symbol_lookup_agrees` applies to `T0` -/
 example : lookupSym T0 ['M', 'g'] = symbolToAtomicNumber T0 ['M', 'g'] := symbol_lookup_agrees T0 (by decide) _
 
 /-- `heap_balanced_partial` applies to `Mg(OH)2`; `heap_leak_count` evaluates to 0 for `(OH)2Mg` (its top level has `Mg`) -/
 example : liveAfterFree (parse asIs T0 ⟨['C']⟩ fMgOH2.print) = 0 :=
-  heap_balanced_partial asIs T0 _ fMgOH2 fMgOH2_wf (by decide)
+  heap_balanced_partial asIs T0 _ fMgOH2 fMgOH2_wf fMgOH2_fits (by decide)
 example : liveAfterFree (parse asIs T0 ⟨['C']⟩ fOH2Mg.print) = 0 := by
-  rw [heap_leak_count asIs rfl T0 _ fOH2Mg fOH2Mg_wf]; decide
+  rw [heap_leak_count asIs rfl T0 _ fOH2Mg fOH2Mg_wf fOH2Mg_fits]; decide
 
 /-- `locale_restored_partial` applies to the state `LC_NUMERIC = "C"` -/
 example : (compoundParser asIs T0 ⟨['C']⟩ (some ['H', '2', 'O'])).locale = ⟨['C']⟩ :=
   locale_restored_partial asIs T0 _ _ (Or.inl rfl)
+
+/-- the strict scanner rejects the witness `(H)a` and still accepts `Mg(OH)2` (`parse_print` holds for every variant) -/
+example : ∃ e, (compoundParser ⟨true, true, true, true, true⟩ T0 ⟨['C']⟩ (some sHa)).result = .error e :=
+  parse_rejects_nonformula_fixed ⟨true, true, true, true, true⟩ rfl T0 _ _ sHa_not_formula
+example : ∃ cd, (parse ⟨true, true, true, true, true⟩ T0 ⟨['C']⟩ fMgOH2.print).result = .ok cd :=
+  (parse_print ⟨true, true, true, true, true⟩ T0 _ fMgOH2 fMgOH2_wf fMgOH2_fits fMgOH2_weighted).imp fun _ h => h.1
+
+/-- `parse_rejects_out_of_range` applies to `H1e309` written out (the witness of `parse_finite_full_fails`), and
+    `parse_finite_fixed` to the same string: with C07-5 it is rejected, no flag -/
+example : (compoundParser ⟨true, true, true, true, true⟩ T0 ⟨['C']⟩ (some sBig)).ovf = false :=
+  parse_finite_fixed ⟨true, true, true, true, true⟩ rfl T0 _ _
+example : ∃ e, (parse ⟨true, true, true, true, true⟩ T0 ⟨['C']⟩
+    (Formula.atom ['H'] (.dec ⟨1 :: List.replicate 309 0, none⟩) .nil).print).result = .error e :=
+  parse_rejects_out_of_range ⟨true, true, true, true, true⟩ rfl T0 _ _
+    ⟨symH, by show (0 : Nat) < _; decide +kernel, trivial⟩
+    (fun h => by
+      have := h.1.2
+      revert this
+      decide +kernel)
+
+/-- `parse_rejects_unreadable_fixed` applies to `(H)a`: the reader fails on it -/
+example : ∃ e, (compoundParser ⟨true, true, true, true, true⟩ T0 ⟨['C']⟩ (some sHa)).result = .error e :=
+  parse_rejects_unreadable_fixed ⟨true, true, true, true, true⟩ rfl T0 _ _ (by decide)
+
+/-- `parse_rejects_all_fixed` applies to `(H)a`, and its hypothesis is not vacuous: `Mg(OH)2` is excluded by it -/
+example : ∃ e, (compoundParser ⟨true, true, true, true, true⟩ T0 ⟨['C']⟩ (some sHa)).result = .error e :=
+  parse_rejects_all_fixed ⟨true, true, true, true, true⟩ rfl rfl rfl T0 _ _
+    (fun ⟨f, hf, _, _, hp⟩ => sHa_not_formula ⟨f, hf.2.1, hp⟩)
+example : ∃ f : Formula, f.WF (elementsOf T0) ∧ f.Weighted (elementsOf T0) ∧ f.Fits ∧ f.printL = fMgOH2.printL :=
+  ⟨fMgOH2, fMgOH2_wf, fMgOH2_weighted, fMgOH2_fits, rfl⟩
 
 end XrlParser.C07
